@@ -30,6 +30,22 @@ type Case struct {
 	N      int    `json:"n"`
 	Ref    string `json:"ref"`  // tag, digest, tagdigest, mismatch, noref, malformed
 	Skip   bool   `json:"skip"` // verifier reports the applicable level as skip
+	// Dup marks, per listed entry, 'd' = the repository lists the very same signature descriptor
+	// again that it listed for the nearest earlier entry of the same status ('.' or missing = a
+	// descriptor of its own): a listed entry is a listed entry, however often the registry repeats it
+	Dup string `json:"dup,omitempty"`
+}
+
+// descIdx is the index of the descriptor the repository lists at position j.
+func descIdx(c Case, j int) int {
+	if j < len(c.Dup) && c.Dup[j] == 'd' {
+		for k := j - 1; k >= 0; k-- {
+			if c.Status[k] == c.Status[j] {
+				return descIdx(c, k)
+			}
+		}
+	}
+	return j
 }
 
 type repo struct {
@@ -56,7 +72,7 @@ func (r *repo) ListSignatures(ctx context.Context, desc ocispec.Descriptor, fn f
 	for _, p := range r.c.Pages {
 		page := []ocispec.Descriptor{}
 		for k := 0; k < p; k++ {
-			page = append(page, sigDesc(i))
+			page = append(page, sigDesc(descIdx(r.c, i)))
 			i++
 		}
 		if err := fn(page); err != nil {
@@ -228,12 +244,12 @@ func check(c Case, withSkipper bool) (string, string) {
 	}
 	// every fetch in listing order, each once, never more than N
 	for i, l := range filter(r.log, "fetch:") {
-		if l != fmt.Sprint("fetch:", i) {
+		if l != fmt.Sprint("fetch:", descIdx(c, i)) {
 			return "C10:fetch-order", fmt.Sprintf("fetches out of listing order or repeated: %v", r.log)
 		}
 	}
 	for i, l := range filter(v.log, "verify:") {
-		if l != fmt.Sprint("verify:", i) {
+		if l != fmt.Sprint("verify:", descIdx(c, i)) {
 			return "C10:verify-order", fmt.Sprintf("verifications out of listing order or repeated: %v", v.log)
 		}
 	}
@@ -322,6 +338,12 @@ func classes(c Case, want int) []string {
 	if len(c.Pages) >= 2 {
 		cl = append(cl, "multi-page")
 	}
+	for j := range c.Status {
+		if descIdx(c, j) != j {
+			cl = append(cl, "listing-repeats-a-descriptor")
+			break
+		}
+	}
 	for _, p := range c.Pages {
 		if p == 0 {
 			cl = append(cl, "empty-page")
@@ -333,7 +355,7 @@ func classes(c Case, want int) []string {
 
 func record(rec *stats.Recorder, c Case) {
 	nt := len(c.Status) >= 2 || len(c.Pages) >= 2
-	rec.Case(classes(c, model(c)), nt, stats.Fingerprint(c.Status, fmt.Sprint(c.Pages), c.N, c.Ref, c.Skip), func() any { return c })
+	rec.Case(classes(c, model(c)), nt, stats.Fingerprint(c.Status, fmt.Sprint(c.Pages), c.N, c.Ref, c.Skip, c.Dup), func() any { return c })
 }
 
 // compositions returns every split of n signatures into non-empty pages, plus variants with
@@ -451,6 +473,13 @@ func TestC10_Random(t *testing.T) {
 			N:    rapid.IntRange(-2, 14).Draw(rt, "n"),
 			Ref:  rp.Pick(rt, "ref", "tag", "digest", "tagdigest", "tag", "digest", "mismatch", "mismatch-tagdigest", "mismatch-sha512", "mismatch-sha384", "noref", "malformed"),
 			Skip: rapid.IntRange(0, 9).Draw(rt, "skip") == 0}
+		if k >= 2 && rapid.IntRange(0, 3).Draw(rt, "duplicates") == 0 {
+			dup := make([]byte, k)
+			for i := range dup {
+				dup[i] = rp.Pick(rt, "dup", byte('.'), byte('.'), byte('d'))
+			}
+			c.Dup = string(dup)
+		}
 		record(rec, c)
 		if key, msg := check(c, rapid.Bool().Draw(rt, "skipper")); key != "" {
 			rec.Failf(rt, key, c, "%s", msg)
